@@ -60,7 +60,7 @@ func periodMap(cmd []string, out string) (map[string][]*big.Rat, error) {
 }
 
 func runC12(c *core.Ctx) {
-	c.SetRule("histories: 2-8 day blocks over one shared book (repeated dates, empty days, days that are permutations of one another, dates in any order), every split point i, a third of them additionally under a -b/-e period; per-day reports (reg in three renderers, reg --totals-only, csv log, print, reg -f P, reg -s X) must satisfy out(B1..Bk) == out(B1..Bi) ++ out(Bi+1..Bk) byte for byte; period reports (bal, bal -s X, report totals, report quantity) must be the element-wise sum of the parts (exact pool: exact; general pool: 3 half-units). Prefix, suffix and whole run back to back in one server process, so state leaking across invocations would show too. Non-trivial = history with >= 3 blocks; distinct = hash(files, split).")
+	c.SetRule("histories: 2-8 day blocks over one shared book (repeated dates, empty days, days that are permutations of one another, dates in any order), every split point i, a third of them additionally under a -b/-e period, every seventh history in a date layout with a zone offset where consecutive blocks can be the same instant under different heading texts; per-day reports (reg in three renderers, reg --totals-only, csv log, print, reg -f P, reg -s X) must satisfy out(B1..Bk) == out(B1..Bi) ++ out(Bi+1..Bk) byte for byte; period reports (bal, bal -s X, report totals, report quantity) must be the element-wise sum of the parts (exact pool: exact; general pool: 3 half-units). Prefix, suffix and whole run back to back in one server process, so state leaking across invocations would show too. Non-trivial = history with >= 3 blocks; distinct = hash(files, split).")
 	pool := newPool(c, c.Procs)
 	if pool == nil {
 		return
@@ -81,6 +81,26 @@ func runC12(c *core.Ctx) {
 			perm := gen.Day{Date: d.Date, Ents: append([]gen.Ent{}, d.Ents...)}
 			r.Shuffle(len(perm.Ents), func(a, b int) { perm.Ents[a], perm.Ents[b] = perm.Ents[b], perm.Ents[a] })
 			w.Log[len(w.Log)-1] = perm
+		}
+		// every seventh history is written in a layout with a zone offset: consecutive blocks may then be
+		// the same instant under different heading texts (…/02 +1200 and …/01 -1200)
+		zoned := i%7 == 3
+		var layoutFlags []string
+		if zoned {
+			offs := []string{"+1200", "-1200", "+0000", "+1400", "-1000", "+0530"}
+			for di := range w.Log {
+				d := w.Log[di].Date
+				off := offs[r.Intn(len(offs))]
+				if di > 0 && r.Intn(2) == 0 {
+					// same instant as the previous block, different text
+					d, off = w.Log[di-1].Date.AddDays(-1), "-1200"
+					w.Log[di-1].Head = w.Log[di-1].Date.Format("2006/01/02") + " +1200"
+				}
+				w.Log[di].Date = d
+				w.Log[di].Head = d.Format("2006/01/02") + " " + off
+			}
+			layoutFlags = []string{"--date-format", "2006/01/02 -0700"}
+			c.Count("histories_in_a_zoned_layout", 1)
 		}
 		X := w.Basics[r.Intn(len(w.Basics))]
 		P := "a"
@@ -105,7 +125,7 @@ func runC12(c *core.Ctx) {
 			}
 			// a third of the histories are composed under a period as well (same flags on whole and parts)
 			var periodFlags []string
-			if i%3 == 0 {
+			if i%3 == 0 && !zoned {
 				bd, ed := w.Log[r.Intn(k)].Date, w.Log[r.Intn(k)].Date
 				switch r.Intn(3) {
 				case 0:
@@ -119,6 +139,7 @@ func runC12(c *core.Ctx) {
 			}
 			runOn := func(logf string, cmd []string) run.Result {
 				args := append([]string{"--no-color", "-d", "food.yaml", "-l", logf}, periodFlags...)
+				args = append(args, layoutFlags...)
 				for _, a := range cmd {
 					switch a {
 					case "X":
